@@ -119,6 +119,7 @@ func flowsToErrorReturn(fn *ssa.Function, v ssa.Value) bool {
 }
 
 func ruleDenyProp(c *Ctx) {
+	denyErrorIsFatal(c)
 	flags := map[string]bool{"noExec": true, "noFileWrites": true, "noFileReads": true}
 	mayDeny := map[*ssa.Function]string{} // fn -> why
 	var order []*ssa.Function
@@ -243,4 +244,69 @@ func joinStrs(xs []string) string {
 		out += x
 	}
 	return out
+}
+
+// denyErrorIsFatal (part of R-DENYPROP, C12): the error a sandbox guard answers with is an *interp.Error (built by
+// newError). The getline path treats any other error of the input layer as "could not read" and lets the program carry
+// on with -1; a denial that comes back as a plain errors.New value is therefore no longer the end of the run.
+func denyErrorIsFatal(c *Ctx) {
+	deny := map[string]bool{"noExec": true, "noFileReads": true, "noFileWrites": true}
+	n := 0
+	for _, fn := range c.srcFuncs("interp") {
+		fn := fn
+		k := 0
+		for _, b := range fn.Blocks {
+			if len(b.Instrs) == 0 {
+				continue
+			}
+			iff, ok := b.Instrs[len(b.Instrs)-1].(*ssa.If)
+			if !ok {
+				continue
+			}
+			name, pos := condField(iff.Cond)
+			if !deny[name] {
+				continue
+			}
+			edge := 0
+			if !pos {
+				edge = 1
+			}
+			// returns that only the denying edge reaches
+			for _, rb := range fn.Blocks {
+				if len(rb.Instrs) == 0 {
+					continue
+				}
+				ret, ok := rb.Instrs[len(rb.Instrs)-1].(*ssa.Return)
+				if !ok || !(b.Succs[edge] == rb || edgeDominates(b, edge, rb)) {
+					continue
+				}
+				for _, rv := range ret.Results {
+					if types.TypeString(rv.Type(), nil) != "error" {
+						continue
+					}
+					if kc, isK := rv.(*ssa.Const); isK && kc.Value == nil {
+						continue
+					}
+					n++
+					k++
+					good := false
+					switch x := rv.(type) {
+					case *ssa.Call:
+						if cal := x.Call.StaticCallee(); cal != nil && cal.Name() == "newError" {
+							good = true
+						}
+					case *ssa.MakeInterface:
+						good = isNamed(deref(x.X.Type()), modPath+"/interp", "Error")
+					}
+					key := "deny-error-type:" + fnKey(fn) + ":" + name
+					if k > 1 {
+						key += "#" + itoa(int64(k))
+					}
+					c.check(good, key, posOr(ret.Pos(), fn.Pos()), "the denial is an *interp.Error (newError)",
+						fnKey(fn)+" answers the "+name+" guard with an error that is not an *interp.Error (a package-level errors.New value, fmt.Errorf): the getline path treats only *Error as fatal, so a plain getline that reaches a denied file operand returns -1 and the program carries on - the attempt no longer ends the run with an error")
+				}
+			}
+		}
+	}
+	c.atLeast("returns of a sandbox guard's denial", n, 4)
 }
